@@ -29,6 +29,13 @@ case "$what" in
     done
     exit $fail
     ;;
+  sensitivity)
+    # every patch of /verif/mutants against every check (scratch worktree under /var/tmp, removed afterwards)
+    exec python3 "$(dirname "$0")/mutants/run.py" "$@"
+    ;;
+  seeded)
+    exec python3 "$(dirname "$0")/seeded/evaluate.py" run "$@"
+    ;;
   *)
     echo "unknown selftest '$what'" >&2
     exit 2
